@@ -291,6 +291,7 @@ class NM(Component):
     s.wd = InPort(16); s.bs = [InPort(4) for _ in range(2)]; s.ps = InPort(NMQ)          # a wide operand and slice bases for part selects
     s.a = InPort({wa}); s.b = InPort({wb}); s.c = InPort(1); s.o = OutPort({wo}); s.o1 = OutPort(1); s.os = OutPort(NMP)
     s.tbl = [mk_bits({wb})(1), mk_bits({wb})(2 % (1 << {wb})), mk_bits({wb})(3 % (1 << {wb}))]; s.N = 2          # a table of sized constants and an int
+    s.K1 = mk_bits(1)(1); s.tbl1 = [mk_bits(1)(1), mk_bits(1)(0)]; s.KQ = NMQ(1, 2)          # sized constants kept as attributes: one bit wide, four bits wide (fields)
     s.sel = InPort(2); s.itbl = {itbl}          # a table of plain python ints, read with a signal index
     @update
     def up():
@@ -302,7 +303,7 @@ def gen_nearmiss(rng):
   """-> (source, description).  half of them are exactly well-typed, the others off by one somewhere"""
   w = rng.choice([1, 2, 3, 4, 7, 8, 9, 16, 31, 32, 33, 48, 49, 50, 63, 64, 65, 100])
   d = rng.choice([0, 0, 1, -1]) if w > 1 else rng.choice([0, 1])
-  shape = rng.randrange(29)
+  shape = rng.randrange(30)
   itbl = [1, 1, 0, 1]
   wa, wb, wo = w, w + d, w
   lit_k = rng.choice([w - 1, w, w + 1, w, w])
@@ -421,6 +422,13 @@ def gen_nearmiss(rng):
     use = rng.choice([f"s.o @= s.a {op} t", f"s.o1 @= s.a {cmp_} t", f"s.o @= s.a {op} (t if s.c else 0)"])
     stmt = f"t = {rng.choice([0, 1])}\n      for i in range(3):\n        {use}\n        t = s.b" + ("" if ws > 1 else "[0]")
     lit = "loop-carried-temporary"; d = 0 if ws == w else 1
+  elif shape == 29:
+    # SIZED constants kept as component attributes - a 1-bit Bits value, an element of a table of 1-bit values, a 4-bit field of a
+    # constant struct - next to an operand of another width: they are explicitly sized, never re-interpreted
+    wb = w
+    kc, kw = rng.choice([("s.K1", 1), ("s.K1", 1), ("s.tbl1[0]", 1), ("s.tbl1[1]", 1), ("s.KQ.lo", 4), ("s.KQ.hi", 4)])
+    stmt = rng.choice([f"s.o @= s.a {op} {kc}", f"s.o1 @= s.a {cmp_} {kc}", f"s.o @= {kc}", f"s.o @= {kc} {op} s.a", f"s.o @= s.a if s.c else {kc}"])
+    lit = "sized-attribute-constant"; d = 0 if w == kw else 1
   elif shape == 24:
     # an element of a table of SIZED constants picked by a constant expression ( s.tbl[s.N - 1] ): it is wb bits wide, full stop
     ix = rng.choice(["s.N - 1", "s.N", "0 + 1", "1"])
@@ -477,7 +485,7 @@ def run_nearmiss(sh, case):
     sh.count("nearmiss_cases"); sh.count("evaluations")
     sh.count("nearmiss_accepted" if accepted else "nearmiss_rejected")
     if desc["shape"] == 25: sh.count("int_table_signal_index:" + str(desc["literal"]) + (":accepted" if accepted else ":rejected"))
-    if desc["shape"] in (27, 28): sh.count(str(desc["literal"]) + (":accepted" if accepted else ":rejected") + (":raises" if err is not None and is_width_error(err) else ""))
+    if desc["shape"] in (27, 28, 29): sh.count(str(desc["literal"]) + (":accepted" if accepted else ":rejected") + (":raises" if err is not None and is_width_error(err) else ""))
     if desc["shape"] == 26:
       sh.count("part_select:" + str(desc["literal"]) + (":accepted" if accepted else ":rejected"))
       if accepted and err is not None and not is_width_error(err): sh.count("part_select_other_error:" + type(err).__name__)
